@@ -334,30 +334,32 @@ class SmartCloudSync(CloudSync):
         return ent
 
     def smart_unsync_oid(self, remote_oid):
-        ent: SyncEntry = self.state.lookup_oid(REMOTE, remote_oid)
-        if not ent:
-            raise ex.CloudFileNotFoundError(remote_oid)
-        self._smart_unsync_ent(ent)
-        ent = self.state.smart_unsync_oid(remote_oid)
-        return ent[LOCAL].path
+        with self.state.lock:
+            ent: SyncEntry = self.state.lookup_oid(REMOTE, remote_oid)
+            if not ent:
+                raise ex.CloudFileNotFoundError(remote_oid)
+            self._smart_unsync_ent(ent)
+            ent = self.state.smart_unsync_oid(remote_oid)
+            return ent[LOCAL].path
 
     def smart_unsync_path(self, path, side):
         """Delete a file locally, but leave it in the cloud"""
         remote_path = self._ensure_path_remote(path, side)
         if not remote_path:
             return None
-        state_ents = self.state.lookup_path(REMOTE, remote_path)
-        ents: set = self.state.requestset.intersection(state_ents)
-        if not ents:
-            return None
-        found_ents = set()
-        for ent in ents:
-            found = self._smart_unsync_ent(ent)
-            if found:
-                found_ents.add(found)
-        for ent in found_ents:
-            self.state.smart_unsync_ent(ent)
-        return found_ents
+        with self.state.lock:
+            state_ents = self.state.lookup_path(REMOTE, remote_path)
+            ents: set = self.state.requestset.intersection(state_ents)
+            if not ents:
+                return None
+            found_ents = set()
+            for ent in ents:
+                found = self._smart_unsync_ent(ent)
+                if found:
+                    found_ents.add(found)
+            for ent in found_ents:
+                self.state.smart_unsync_ent(ent)
+            return found_ents
 
     def _smart_sync_ent(self, ent: SyncEntry) -> bool:
         """Request to sync down a file from the cloud, and mark the entry to maintain synchronization."""
@@ -371,21 +373,23 @@ class SmartCloudSync(CloudSync):
             return self._sync_one_entry(ent)
 
     def smart_sync_oid(self, remote_oid):
-        ent: SyncEntry = self.state.smart_sync_oid(remote_oid)
-        if not ent:
-            raise ex.CloudFileNotFoundError(remote_oid)
-        self._smart_sync_ent(ent)
-        return ent[LOCAL].path
+        with self.state.lock:
+            ent: SyncEntry = self.state.smart_sync_oid(remote_oid)
+            if not ent:
+                raise ex.CloudFileNotFoundError(remote_oid)
+            self._smart_sync_ent(ent)
+            return ent[LOCAL].path
 
     def smart_sync_path(self, path, side):
         remote_path = self._ensure_path_remote(path, side)
-        try:
-            ents = self.state.smart_sync_path(remote_path)
-        except ex.CloudException as e:
-            self.nmgr.notify_from_exception(SourceEnum.SYNC, e, remote_path)
-            raise
-        for ent in ents:
-            self._smart_sync_ent(ent)
+        with self.state.lock:
+            try:
+                ents = self.state.smart_sync_path(remote_path)
+            except ex.CloudException as e:
+                self.nmgr.notify_from_exception(SourceEnum.SYNC, e, remote_path)
+                raise
+            for ent in ents:
+                self._smart_sync_ent(ent)
 
     def smart_listdir_path(self, local_path):
         """
@@ -450,13 +454,14 @@ class SmartCloudSync(CloudSync):
         remote_path = self.translate(REMOTE, local_path)
         log.info("Smart delete path %s", local_path)
         if remote_path:
-            ents = self.state.lookup_path(REMOTE, remote_path)
-            if ents:
-                ent = ents[0]
-                ent[REMOTE].changed = 0
-                self.state.update_entry(ent, LOCAL, local_oid, path=local_path, changed=True, exists=False)
-                self.state.requestset.add(ent)
-                self.state.excludeset.discard(ent)
+            with self.state.lock:
+                ents = self.state.lookup_path(REMOTE, remote_path)
+                if ents:
+                    ent = ents[0]
+                    ent[REMOTE].changed = 0
+                    self.state.update_entry(ent, LOCAL, local_oid, path=local_path, changed=True, exists=False)
+                    self.state.requestset.add(ent)
+                    self.state.excludeset.discard(ent)
 
     def smart_rename(self, side, oid, new_path) -> str:
         """smartsync aware rename"""
